@@ -18,9 +18,12 @@ REQUIRED = ["accepted_create_sound", "accepted_create_signed_by_did_key", "accep
             "fact_store_calls", "fact_update_steps", "fact_ambassador_controller_resolution", "fact_key_resolver",
             # entry layer (NutsProofs.Props.C09Entry): Start's selection filter, handleNetworkEvent, store faults, event streams
             "filtered_event_inert", "notify_refines_callback", "finished_iff_accepted", "notify_changes_only_if_accepted",
-            "store_fault_classification", "filter_subsumes_type_check", "event_stream_is_callback_of_passed",
-            "event_stream_resolvable_only_if_accepted", "passed_mem",
-            "fact_start_subscription", "fact_did_document_type", "fact_network_event_classification"]
+            "store_fault_classification", "filter_subsumes_type_check",
+            "event_stream_resolvable_only_if_accepted",
+            "lookup_fault_never_accepts", "fallback_lookup_fault_never_accepts", "lookup_fault_not_hit", "callback_of_reachesUpdate",
+            "seenSet_same_key", "seenSet_key_mismatch_misses", "validateSvcs_ok_seenSet", "validateSvcs_ok_types_nodup",
+            "fact_start_subscription", "fact_did_document_type", "fact_network_event_classification",
+            "fact_update_lookup_error_branch", "fact_service_type_seen_set_keys"]
 
 FULL_DOC_RE = re.compile(r"doc=(\S+?)\{Context:\[[^\]]*\];Controller:\[([^\]]*)\];VerificationMethod:\[([^\]]*)\];Authentication:\[[^\]]*\];"
                          r"AssertionMethod:\[[^\]]*\];CapabilityInvocation:\[([^\]]*)\];CapabilityDelegation:\[[^\]]*\];KeyAgreement:\[[^\]]*\];Service:\[([^\]]*)\]")
@@ -151,6 +154,26 @@ def stored_vm_mismatch(obs):
     return None
 
 
+STORED_RE = re.compile(r"doc=(\S+?)\{[^}]*?Service:\[([^\]]*)\]\} created=\S+ updated=\S+ hash=\S+ prev=\S+ src=\[([^\]]*)\]")
+
+
+def stored_service_type_twice(obs):
+    """a STORED, unmerged (one source transaction) document version with two services of the same type string; the type
+    travels base64url-encoded behind '~' in the service's body"""
+    for m in STORED_RE.finditer(obs):
+        if "," in m.group(3):
+            continue   # a merged view of conflicting versions may legitimately unite services of the same type
+        seen = set()
+        for x in m.group(2).split(","):
+            if "~" not in x:
+                continue
+            t = x.rsplit("~", 1)[1]
+            if t in seen:
+                return f"{m.group(1)} (service {x.split('=')[0]})"
+            seen.add(t)
+    return None
+
+
 def wellformed_nuts(doc):
     """the Nuts method rules of the property text, re-implemented on the parsed view (independent of model and code)"""
     seen = set()
@@ -246,6 +269,7 @@ def run(ctx):
     # ---- direct property oracles on the implementation's own outputs
     kinds, classes, labels = Counter(), Counter(), Counter()
     distinct = set()
+    entry_hits = Counter()  # executed failing store calls per fault kind
     entry = Counter()      # entry layer: (event type class, payload type class, fault) -> outcome kind
     n_pairs = n_ok = n_embedded_illformed = n_deactivated_controller = n_deactivated_after = n_dag = n_reprocess = n_reprocess_changed = 0
     dag_classes = Counter()
@@ -335,6 +359,10 @@ def run(ctx):
             if bad_vm:
                 report("stored-verification-method-id-is-not-its-key-thumbprint",
                        "a resolvable document holds a verification method whose id is not DID#thumbprint(its own key): " + bad_vm, i)
+            twice = stored_service_type_twice(shown)
+            if twice:
+                report("stored-document-has-two-services-of-one-type",
+                       "a resolvable document version holds two services with the same type string: " + twice, i)
         if "NOTIFY-MISMATCH" in flags:
             report("notify-mismatch", "network notified of a DID update although the document was rejected (or not notified although accepted)", i)
         if "SIG-NOT-BY-KID-KEY" in flags:
@@ -344,7 +372,7 @@ def run(ctx):
             report("nondeterministic-outcome", "the same pair on the same history gave a different outcome on a second store: " + flags, i)
         # ---- entry layer: what the subscription of ambassador.Start may hand to the callback, and how a failing store is answered
         ev = op.get("ev")
-        if cls.startswith("retry:") and not (ev and ev.get("fault") == "db"):
+        if cls.startswith("retry:") and not (ev and "db" in ev.get("fault", "") and "FAULT-HIT" in flags):
             # store_fault_classification: without a database error at the store NO answer is a bare (retried) error
             report("refused-document-is-retried-instead-of-dropped",
                    f"handleNetworkEvent answered a refusal ({cls}) with a bare error: the notifier would retry it, although no database error occurred", i)
@@ -352,18 +380,32 @@ def run(ctx):
             passes = ev["type"] == "payload" and ev["ptype"] == "application/did+json"
             entry[("payload-event" if ev["type"] == "payload" else "other-event:" + ev["type"],
                    "did+json" if ev["ptype"] == "application/did+json" else "other-type:" + ev["ptype"],
-                   ev.get("fault", "")) + (cls.split(":")[0],)] += 1
+                   ev.get("fault", "").split(":")[0]) + (cls.split(":")[0],)] += 1
             if not passes and cls != "filtered":
                 report("event-outside-the-did-document-subscription-reached-the-ambassador",
                        f"a DAG event of type {ev['type']!r} with payload type {ev['ptype']!r} was handed to handleNetworkEvent (outcome {cls})", i)
             if passes and cls == "filtered":
                 report("did-document-payload-event-was-filtered", "a payload event of a did+json transaction never reached the ambassador", i)
-            if ev.get("fault") and cls == "ok":
+            fault = ev.get("fault", "")
+            if "FAULT-HIT" in flags:
+                entry_hits[fault.split(":")[0]] += 1
+            if "FAULT-HIT" in flags and cls == "ok" and fault.startswith("lookup"):
+                report("accepted-although-a-named-version-could-not-be-looked-up",
+                       "an update was accepted although didStore.Resolve failed for a version that one of the transaction's prevs names: "
+                       "that version is missing from the 'authorised under every version it succeeds' check (fault " + fault + ")", i)
+            elif "FAULT-HIT" in flags and cls == "ok":
                 report("accepted-although-the-store-failed", "handleNetworkEvent reported success although didStore.Add failed", i)
-            if ev.get("fault") == "db" and cls.startswith("err:store:fault"):
+            if "FAULT-HIT" in flags and fault.startswith("lookup-db") and not cls.startswith("retry:"):
+                report("database-error-at-a-version-lookup-is-not-retried",
+                       f"didStore.Resolve failed with a database error in handleUpdateDIDDocument and the answer was {cls}, not a bare (retried) error", i)
+            if fault.startswith("lookup") and "FAULT-HIT" not in flags and i < len(model) and "FAULT-HIT" in model[i] \
+                    and model[i].split(" ")[2:3] == [cls]:
+                report("failing-version-lookup-was-not-executed",
+                       "the model executes the failing lookup of a named version, the implementation did not make that call", i)
+            if fault == "db" and cls.startswith("err:store:fault"):
                 report("database-error-answered-as-fatal",
                        "didStore.Add failed with a database error and handleNetworkEvent answered dag.EventFatal: the document is never retried (lost)", i)
-            if ev.get("fault") == "other" and cls.startswith("retry:"):
+            if fault.endswith("other") and cls.startswith("retry:"):
                 report("non-database-error-is-retried", "didStore.Add failed with a non-database error and the answer was a bare (retried) error", i)
         if cls != "ok":
             # rejected => inert: database byte-identical, every Resolve / key resolver answer unchanged
@@ -491,6 +533,7 @@ def run(ctx):
                                      "pair_kinds": dict(sorted(kinds.items())), "outcome_classes": dict(sorted(classes.items())),
                                      "accepted": n_ok, "rejected": n_pairs - n_ok,
                                      "entry_layer_events(event type, payload type, store fault, outcome)": {" | ".join(k): v for k, v in sorted(entry.items())},
+                                     "executed_failing_store_calls": dict(sorted(entry_hits.items())),
                                      "reprocess_runs": n_reprocess, "reprocess_runs_that_changed_the_store": n_reprocess_changed,
                                      "delayed_vdr_dag_verdicts": dict(sorted(dag_classes.items())),
                                      "scripted_step_outcomes": dict(sorted(scripted_outcomes.items())),
